@@ -2,6 +2,8 @@ pub mod c12;
 pub mod c13;
 pub mod c14;
 pub mod c15;
+pub mod c11;
+pub mod c11_spec;
 pub mod c16;
 pub mod chain;
 pub mod c19;
